@@ -181,6 +181,7 @@ fn main() {
             ctx.sample(json!({"index": i, "surface_program": text, "form": if c.as_query { "proto_vulcan_query!" } else { "proto_vulcan!" }, "answers": answers.len()}));
         }
     }
+    ev::progress_clear();
     // C14: `lterm!` denotes the written term
     if id == "C14" && ctx.replay.is_none() {
         let env: pvmc::conv::Env<prelude::DU, prelude::DE> = pvmc::conv::Env::new(2);
